@@ -151,15 +151,17 @@ Section Ident.
                end)%list.
 
   (* ---- well-formed histories: the hypotheses of the property's quantifier.
-     user arguments are user names; NameID texts are not user names; a NameID handed to store
-     has a text; an operation either changes nothing or its identifier value is a proper value that
-     no earlier operation mentioned (what create_id's "while _id in self.db" loop is there for). *)
+     user arguments are user names; NameID texts and generated identifier values are not user names;
+     a NameID handed to store has a text; an operation either changes nothing or its identifier
+     value is a proper value that no earlier operation mentioned (what create_id's
+     "while _id in self.db" loop is there for). *)
   Definition wf_event (seen : list string) (e : event) : Prop :=
     (forall u, arg_user (e_op e) = Some u -> is_user u = true)
     /\ (forall n t, arg_nid (e_op e) = Some n -> txt n = Some t -> is_user t = false)
     /\ (forall u n, e_op e = Store u n -> truthy (txt n) = true)
+    /\ (forall t, In t (cand (e_op e)) -> is_user t = false)
     /\ (same_map (e_post e) (e_pre e)
-        \/ forall t, In t (cand (e_op e)) -> t <> "" /\ is_user t = false /\ ~ In t seen).
+        \/ forall t, In t (cand (e_op e)) -> t <> "" /\ ~ In t seen).
 
   Fixpoint wf_from (seen : list string) (tr : trace) : Prop :=
     match tr with
@@ -178,8 +180,9 @@ Section Ident.
        | None => true
        end
     && match e_op e with Store _ n => truthy (txt n) | _ => true end
-    && (if forallb (fun t => nonempty t && negb (is_user t) && negb (mem t seen)) (cand (e_op e))
-        then true else db_eqb (e_post e) (e_pre e)).
+    && forallb (fun t => negb (is_user t)) (cand (e_op e))
+    && (forallb (fun t => nonempty t && negb (mem t seen)) (cand (e_op e))
+        || db_eqb (e_post e) (e_pre e)).
 
   Fixpoint wf_from_b (seen : list string) (tr : trace) : bool :=
     match tr with
